@@ -1,7 +1,7 @@
 (* C14/ProofsInmem3.v — the store with the in-memory index: invariant, steps, answers. *)
 From Coq Require Import Permutation.
 From Verif Require Import C14.Spec C14.Model C14.ProofsBase C14.ProofsQuery C14.ProofsSfile
-     C14.ProofsLsmA C14.ProofsLsmB C14.ProofsLsmD C14.ProofsLsmE C14.ProofsLsmH C14.ProofsTs C14.ProofsTsAns C14.ProofsInmem C14.ProofsInmem2.
+     C14.ProofsLsmA C14.ProofsLsmB C14.ProofsLsmD C14.ProofsLsmE C14.ProofsLsmH C14.ProofsTs C14.ProofsTsAns C14.ProofsClean C14.ProofsInmem C14.ProofsInmem2 C14.ProofsInmemW.
 
 Definition is_L (st : istate) : list id := iunions (map sh_sids (is_sh st)).
 
@@ -14,7 +14,8 @@ Record is_ok (n : nat) (A : sstate) (st : istate) : Prop := mkIsOk {
   ik_sfl : forall i s, sf_key (is_sf st) i = Some s -> sf_deleted (is_sf st) i = false ->
            exists sh, valid_shard n sh = true /\ In i (sh_sids (is_get st sh));
   ik_ix : ix_ok (is_sf st) (is_L st) (is_ix st);
-  ik_clean : ix_dirty (is_ix st) = []
+  (* measurements may be dirty (Store.DeleteShard does not rebuild); their tag entries are then only weakly exact *)
+  ik_tv : tv_weak (is_sf st) (is_L st) (is_ix st)
 }.
 
 Lemma In_ish l n t : length l = n -> (In t l <-> exists sh, valid_shard n sh = true /\ t = nth (sh - 1) l ish_empty).
@@ -48,7 +49,9 @@ Proof.
   - unfold is_L, is_init; cbn. apply (ix_ok_L sf_empty []); [|apply ix_ok_empty].
     intros i. rewrite (In_is_L_gen (repeat ish_empty n) n i (repeat_length _ _)). split; [|intros []].
     intros [sh [_ H]]. rewrite nth_repeat in H. destruct H.
-  - reflexivity.
+  - constructor; [|intros m k v i []].
+    intros m k v i s Hi. exfalso. unfold is_L, is_init in Hi. cbn [is_sh] in Hi.
+    apply (In_is_L_gen (repeat ish_empty n) n i (repeat_length _ _)) in Hi. destruct Hi as [sh [_ H]]. rewrite nth_repeat in H. destruct H.
 Qed.
 
 Lemma dedup_NoDup_id {A} (eqb : A -> A -> bool) (Heq : forall x y, eqb x y = true <-> x = y) l : NoDup l -> dedup eqb l = l.
@@ -68,10 +71,12 @@ Lemma dead_fold dead : forall sf L ix,
   sf_inv sf2 /\ sf_next sf2 = sf_next sf /\ (forall j, sf_key sf2 j = sf_key sf j) /\
   (forall j, ~ In j (map fst dead) -> sf_deleted sf2 j = sf_deleted sf j) /\
   (forall j, In j (map fst dead) -> sf_deleted sf2 j = true) /\
-  ix_ok sf2 (filter (fun j => negb (memb N.eqb j (map fst dead))) L) ix2.
+  ix_ok sf2 (filter (fun j => negb (memb N.eqb j (map fst dead))) L) ix2 /\
+  (tv_weak sf L ix -> tv_weak sf2 (filter (fun j => negb (memb N.eqb j (map fst dead))) L) ix2).
 Proof.
   induction dead as [|[i k] dead IH]; intros sf L ix I X Hnd Hd; cbn [fold_left map fst].
-  - ssplit; auto; try (intros j Hj; destruct Hj; fail). apply (ix_ok_L sf L); [|exact X]. intros j. rewrite filter_In. cbn. tauto.
+  - assert (HLf : forall j, In j (filter (fun j => negb (memb N.eqb j [])) L) <-> In j L) by (intros j; rewrite filter_In; cbn; tauto).
+    ssplit; auto; try (intros j Hj; destruct Hj; fail); [apply (ix_ok_L sf L); [exact HLf|exact X]|intros W; apply (tv_weak_L sf L); [exact HLf|exact W]].
   - inversion Hnd as [|i' l' Hni Hnd']; subst. destruct (Hd i k (or_introl eq_refl)) as [Hi Hk]. cbn [fst snd]. rewrite Hk.
     destruct (sf_delete_spec sf I i) as [I1 [Hdi [Hn1 [Hk1 Ho1]]]]. cbv zeta in *.
     set (L1 := filter (fun j => negb (N.eqb j i)) L).
@@ -83,15 +88,30 @@ Proof.
       apply HL1. split; [exact H1|]. intros ->. apply Hni. apply in_map_iff. exists (i, k'). auto. }
     specialize (IH (sf_delete sf i) L1 (ix_drop_series_global ix k) I1 X1 Hnd' Hd1).
     destruct (fold_left _ dead (sf_delete sf i, ix_drop_series_global ix k)) as [sf2 ix2].
-    destruct IH as [I2 [Hn2 [Hk2 [Ho2 [Hd2 X2]]]]].
+    destruct IH as [I2 [Hn2 [Hk2 [Ho2 [Hd2 [X2 W2]]]]]].
+    assert (HLf : forall j, In j (filter (fun j => negb (memb N.eqb j (i :: map fst dead))) L) <-> In j (filter (fun j => negb (memb N.eqb j (map fst dead))) L1)).
+    { intros j. rewrite !filter_In, HL1. cbn [memb existsb]. rewrite negb_orb, andb_true_iff, !negb_true_iff, N.eqb_neq. tauto. }
     ssplit; auto.
     + congruence.
     + intros j. rewrite Hk2. apply Hk1.
     + intros j Hj. rewrite Ho2; [apply Ho1|]; intros H; apply Hj; cbn; auto.
     + intros j [<-|Hj]; [|apply Hd2; exact Hj].
       destruct (in_dec N.eq_dec i (map fst dead)) as [H|H]; [apply Hd2; exact H|rewrite Ho2; assumption].
-    + apply (ix_ok_L sf2 (filter (fun j => negb (memb N.eqb j (map fst dead))) L1)); [|exact X2].
-      intros j. rewrite !filter_In, HL1. cbn [memb existsb]. rewrite negb_orb, andb_true_iff, !negb_true_iff, N.eqb_neq. tauto.
+    + apply (ix_ok_L sf2 (filter (fun j => negb (memb N.eqb j (map fst dead))) L1)); [exact HLf|exact X2].
+    + intros W. apply (tv_weak_L sf2 (filter (fun j => negb (memb N.eqb j (map fst dead))) L1)); [exact HLf|]. apply W2.
+      apply (tv_weak_drop_global sf I L ix i k L1); auto.
+Qed.
+
+(* ids with a key, paired with it *)
+Lemma dead_pairs sf (ids : list id) :
+  (forall i, In i ids -> exists k, sf_key sf i = Some k) ->
+  exists dead : list (id * series), map fst dead = ids /\ forall i k, In (i, k) dead -> In i ids /\ sf_key sf i = Some k.
+Proof.
+  induction ids as [|i ids IH]; intros H.
+  - exists []. split; [reflexivity|intros i k []].
+  - destruct (H i (or_introl eq_refl)) as [k Hk]. destruct IH as [dead [Hm Hd]]; [intros j Hj; apply H; right; exact Hj|].
+    exists ((i, k) :: dead). split; [cbn; rewrite Hm; reflexivity|].
+    intros j kj [E|Hin]; [inversion E; subst; split; [left; reflexivity|exact Hk]|]. destruct (Hd j kj Hin) as [H1 H2]. split; [right; exact H1|exact H2].
 Qed.
 
 Section Steps.
@@ -128,9 +148,9 @@ Section Steps.
     destruct (valid_shard n sh) eqn:Hv; [|constructor; assumption].
     assert (Hwf' : Forall (fun s => wf_series s = true) ss) by (apply Forall_forall; apply forallb_forall; exact Hwf).
     assert (Hsub : forall i, In i (sh_sids (is_get st sh)) -> In i (is_L st)) by (intros i Hi; apply (In_is_L st i Hl); eauto).
-    pose proof (is_create_list_ok ss (is_sf st) (is_L st) (is_ix st) (shard_set A sh) (is_get st sh) Isf Hix Hcl (Hsh sh Hv) Hsub Hwf') as H.
+    pose proof (is_create_list_ok ss (is_sf st) (is_L st) (is_ix st) (shard_set A sh) (is_get st sh) Isf Hix (Hsh sh Hv) Hsub Hwf') as H.
     destruct (fold_left (fun a s => ix_create (fst (fst a)) (snd (fst a)) (snd a) s) ss (is_sf st, is_ix st, is_get st sh)) as [[sf' ix'] shd'].
-    destruct H as [L' [S' [I' [E' [Hold [Hnew [X' [Xd' [O' [HS' [HL' Hmono]]]]]]]]]]].
+    destruct H as [L' [S' [I' [E' [Hold [Hnew [X' [[Xd' W'] [O' [HS' [HL' Hmono]]]]]]]]]]].
     set (A' := fold_left (fun st0 s => sadd pair_eqb (sh, s) st0) ss A).
     assert (HA' : forall p, In p A' <-> In p A \/ exists s, In s ss /\ p = (sh, s)) by (intros p; apply In_fold_sadd_pair).
     assert (Hlen : length (upd_nth (sh - 1) shd' (is_sh st)) = n) by (rewrite upd_nth_length; exact Hl).
@@ -165,48 +185,61 @@ Section Steps.
         * exists sh'. split; [exact Hv'|]. rewrite (Hget sh' Hv'). destruct (Nat.eqb sh' sh) eqn:Es; [|exact Hi].
           apply Nat.eqb_eq in Es. subst. apply Hmono. exact Hi.
         * exists sh. split; [exact Hv|]. rewrite (Hget sh Hv), Nat.eqb_refl. exact Hi.
+    - apply (tv_weak_L sf' L'); [|apply W'; exact Hcl]. intros i. unfold is_L. cbn [is_sh].
+      rewrite (In_is_L_gen _ n i Hlen), HL', (In_is_L st i Hl). split.
+      + intros [sh' [Hv' Hi]]. rewrite (Hget sh' Hv') in Hi. destruct (Nat.eqb sh' sh); [right; exact Hi|left; eauto].
+      + intros [[sh' [Hv' Hi]]|Hi].
+        * exists sh'. split; [exact Hv'|]. rewrite (Hget sh' Hv'). destruct (Nat.eqb sh' sh) eqn:Es; [|exact Hi].
+          apply Nat.eqb_eq in Es. subst. apply Hmono. exact Hi.
+        * exists sh. split; [exact Hv|]. rewrite (Hget sh Hv), Nat.eqb_refl. exact Hi.
   Qed.
 
-  Lemma is_refines A st : is_ok n A st -> refines (ix_prims (is_ix st)) (is_sf st) (is_L st) (db_set A).
+  (* the index refines the set once the tag key / tag value series lists are read through the
+     series file's deleted flags - which is how the query layer reads them (ProofsClean) *)
+  Lemma is_refines A st : is_ok n A st -> refines (clean_prims (is_sf st) (ix_prims (is_ix st))) (is_sf st) (is_L st) (db_set A).
   Proof.
-    intros [Isf Hl Hd HA Hsh Hsfl [X1 X2 X3 X4 X5 X6 X7] Hcl].
+    intros [Isf Hl Hd HA Hsh Hsfl [X1 X2 X3 X4 X5 X6 X7] [W1 W2]].
     assert (HLU : forall i, In i (is_L st) -> exists s, sf_key (is_sf st) i = Some s /\ In s (db_set A) /\ sf_deleted (is_sf st) i = false).
     { intros i Hi. apply (In_is_L st i Hl) in Hi. destruct Hi as [sh [Hv Hi]].
       destruct (io_live _ _ _ (Hsh sh Hv) i Hi) as [s [H1 [H2 H3]]]. exists s. ssplit; auto. apply In_db_set. exists sh. apply In_shard_set. exact H3. }
-    assert (Hnd : forall m, ~ In m (ix_dirty (is_ix st))) by (intros m; rewrite Hcl; tauto).
     assert (Hwf : forall s, In s (db_set A) -> wf_series s = true).
     { intros s Hs. apply In_db_set in Hs. destruct Hs as [sh Hs]. apply (HA sh s Hs). }
     assert (Hcov : forall s, In s (db_set A) -> exists i, In i (is_L st) /\ sf_key (is_sf st) i = Some s).
     { intros s Hs. apply In_db_set in Hs. destruct Hs as [sh Hs]. destruct (HA sh s Hs) as [Hv _].
       destruct (io_cover _ _ _ (Hsh sh Hv) s (proj2 (In_shard_set A sh s) Hs)) as [i [Hi Hk]]. exists i. split; [apply (In_is_L st i Hl); eauto|exact Hk]. }
+    (* an entry whose id is not deleted is exact *)
+    assert (Hex : forall m k v i, In (m, k, v, i) (ix_tv (is_ix st)) -> sf_deleted (is_sf st) i = false ->
+                  In i (is_L st) /\ exists s, sf_key (is_sf st) i = Some s /\ fst s = m /\ In (k, v) (snd s)).
+    { intros m k v i Hin Hdl. destruct (W2 m k v i Hin) as [H|[H _]]; [exact H|congruence]. }
     constructor; auto.
-    - intros m i. cbn [ix_prims p_mseries]. rewrite In_ix_mids. split.
+    - intros m i. cbn [clean_prims ix_prims p_mseries]. rewrite In_ix_mids. split.
       + intros [s H]. apply X3 in H. exists s. unfold live. tauto.
       + intros [s [[Hi Hk] Hm]]. exists s. apply X3. auto.
-    - intros m k i. cbn [ix_prims p_kseries]. rewrite (In_dedup N.eqb N.eqb_eq), in_map_iff. split.
-      + intros [[[[m' k'] v] j] [E Hin]]. cbn in E. subst j. apply filter_In in Hin. destruct Hin as [Hin Emk]. cbn in Emk.
-        apply mk_eqb_eq in Emk. inversion Emk; subst. apply (X4 m k v i (Hnd m)) in Hin. destruct Hin as [Hi [s [Hk [Hm Hkv]]]].
+    - intros m k i. cbn [clean_prims ix_prims p_kseries]. rewrite In_undeleted, (In_dedup N.eqb N.eqb_eq), in_map_iff. split.
+      + intros [[[[[m' k'] v] j] [E Hin]] Hdl]. cbn in E. subst j. apply filter_In in Hin. destruct Hin as [Hin Emk]. cbn in Emk.
+        apply mk_eqb_eq in Emk. inversion Emk; subst. destruct (Hex m k v i Hin Hdl) as [Hi [s [Hk [Hm Hkv]]]].
         exists s. unfold live. ssplit; auto. destruct (HLU i Hi) as [s' [K' [HU _]]]. rewrite Hk in K'. inversion K'; subst s'.
         apply (has_key_In s k (Hwf s HU)). eauto.
-      + intros [s [[Hi Hk] [Hm Hhk]]]. destruct (HLU i Hi) as [s' [K' [HU _]]]. rewrite Hk in K'. inversion K'; subst s'.
-        apply (has_key_In s k (Hwf s HU)) in Hhk. destruct Hhk as [v Hkv]. subst m.
-        exists (fst s, k, v, i). split; [reflexivity|]. apply filter_In. split; [apply (X4 _ _ _ _ (Hnd (fst s))); split; [exact Hi|eauto]|].
+      + intros [s [[Hi Hk] [Hm Hhk]]]. destruct (HLU i Hi) as [s' [K' [HU Hdl]]]. rewrite Hk in K'. inversion K'; subst s'.
+        apply (has_key_In s k (Hwf s HU)) in Hhk. destruct Hhk as [v Hkv]. subst m. split; [|exact Hdl].
+        exists (fst s, k, v, i). split; [reflexivity|]. apply filter_In. split; [apply (W1 (fst s) k v i s); auto|].
         cbn. apply mk_eqb_eq. reflexivity.
-    - intros m k v i. cbn [ix_prims p_vseries]. rewrite in_map_iff. split.
-      + intros [[[[m' k'] v'] j] [E Hin]]. cbn in E. subst j. apply filter_In in Hin. destruct Hin as [Hin Emk]. cbn in Emk.
-        apply mkv_eqb_eq in Emk. inversion Emk; subst. apply (X4 m k v i (Hnd m)) in Hin. destruct Hin as [Hi [s [Hk [Hm Hkv]]]].
+    - intros m k v i. cbn [clean_prims ix_prims p_vseries]. rewrite In_undeleted, in_map_iff. split.
+      + intros [[[[[m' k'] v'] j] [E Hin]] Hdl]. cbn in E. subst j. apply filter_In in Hin. destruct Hin as [Hin Emk]. cbn in Emk.
+        apply mkv_eqb_eq in Emk. inversion Emk; subst. destruct (Hex m k v i Hin Hdl) as [Hi [s [Hk [Hm Hkv]]]].
         exists s. unfold live. auto.
-      + intros [s [[Hi Hk] [Hm Hkv]]]. exists (m, k, v, i). split; [reflexivity|]. apply filter_In.
-        split; [apply (X4 _ _ _ _ (Hnd m)); split; [exact Hi|eauto]|cbn; apply mkv_eqb_eq; reflexivity].
-    - intros s k v Hs Hkv. cbn [ix_prims p_vals]. destruct (Hcov s Hs) as [i [Hi Hk]].
+      + intros [s [[Hi Hk] [Hm Hkv]]]. destruct (HLU i Hi) as [s' [K' [_ Hdl]]]. split; [|exact Hdl].
+        exists (m, k, v, i). split; [reflexivity|]. apply filter_In.
+        split; [apply (W1 m k v i s); auto|cbn; apply mkv_eqb_eq; reflexivity].
+    - intros s k v Hs Hkv. cbn [clean_prims ix_prims p_vals]. destruct (Hcov s Hs) as [i [Hi Hk]].
       apply (In_dedup str_eqb str_eqb_eq). apply in_map_iff. exists (fst s, k, v, i). split; [reflexivity|]. apply filter_In.
-      split; [apply (X4 _ _ _ _ (Hnd (fst s))); split; [exact Hi|eauto]|cbn; apply mk_eqb_eq; reflexivity].
-    - intros s k v Hs Hkv. cbn [ix_prims p_keys]. destruct (Hcov s Hs) as [i [Hi Hk]].
+      split; [apply (W1 (fst s) k v i s); auto|cbn; apply mk_eqb_eq; reflexivity].
+    - intros s k v Hs Hkv. cbn [clean_prims ix_prims p_keys]. destruct (Hcov s Hs) as [i [Hi Hk]].
       apply (In_dedup str_eqb str_eqb_eq). apply in_map_iff. exists (fst s, k, v, i). split; [reflexivity|]. apply filter_In.
-      split; [apply (X4 _ _ _ _ (Hnd (fst s))); split; [exact Hi|eauto]|cbn; apply str_eqb_refl].
-    - intros s k v Hs Hkv. cbn [ix_prims p_has_key]. destruct (Hcov s Hs) as [i [Hi Hk]].
-      apply existsb_exists. exists (fst s, k, v, i). split; [apply (X4 _ _ _ _ (Hnd (fst s))); split; [exact Hi|eauto]|cbn; apply mk_eqb_eq; reflexivity].
-    - intros m. cbn [ix_prims p_meas]. rewrite filter_In, X2. unfold ix_meas_listed. split.
+      split; [apply (W1 (fst s) k v i s); auto|cbn; apply str_eqb_refl].
+    - intros s k v Hs Hkv. cbn [clean_prims ix_prims p_has_key]. destruct (Hcov s Hs) as [i [Hi Hk]].
+      apply existsb_exists. exists (fst s, k, v, i). split; [apply (W1 (fst s) k v i s); auto|cbn; apply mk_eqb_eq; reflexivity].
+    - intros m. cbn [clean_prims ix_prims p_meas]. rewrite filter_In, X2. unfold ix_meas_listed. split.
       + intros [[i [s [Hi [Hk Hm]]]] _]. destruct (HLU i Hi) as [s' [K' [HU _]]]. rewrite Hk in K'. inversion K'; subst s'. eauto.
       + intros [s [Hs Hm]]. destruct (Hcov s Hs) as [i [Hi Hk]]. split; [eauto|].
         apply existsb_exists. exists (m, (i, s)). split; [apply X3; auto|]. cbn. rewrite str_eqb_refl. cbn.
@@ -283,7 +316,7 @@ Section Steps.
     { unfold dead. rewrite Hdd. apply filter_fst_NoDup. exact Hndf. }
     pose proof (dead_fold dead sf L (is_ix st) Isf Hix Hnd_dead (fun i k Hin => Hidk i k (proj1 (proj1 (Hdead_in i k) Hin)))) as Hfold.
     match type of Hfold with context [fold_left ?F dead (sf, is_ix st)] => destruct (fold_left F dead (sf, is_ix st)) as [sf2 ix2] end.
-    destruct Hfold as [I2 [Hn2 [Hk2 [Ho2 [Hd2 X2]]]]].
+    destruct Hfold as [I2 [Hn2 [Hk2 [Ho2 [Hd2 [X2 _]]]]]].
     destruct (ix_rebuild_ok _ _ _ X2) as [X3 Xcl].
     assert (Hdead_fst : forall i, In i (map fst dead) -> forall sh', valid_shard n sh' = true -> ~ In i (sh_sids (nth (sh' - 1) shards ish_empty))).
     { intros i Hi. apply in_map_iff in Hi. destruct Hi as [[i' k] [E Hin]]. cbn in E. subst i'. apply (Hdead_in i k). exact Hin. }
@@ -354,7 +387,24 @@ Section Steps.
                 split; [exact Hii|]. cbn [fst]. rewrite Ex. reflexivity.
           -- exists sh. split; [exact Hv|]. rewrite (Hget sh Hv), Nat.eqb_refl. apply Hs1. auto.
         * exists sh'. split; [exact Hv'|]. rewrite (Hget sh' Hv'), Es. exact Hi.
-    - exact Xcl.
+    - apply tv_weak_of_clean; [|exact Xcl]. apply (ix_ok_L sf2 (filter (fun j => negb (memb N.eqb j (map fst dead))) L)); [|exact X3].
+      intros i. unfold is_L. cbn [is_sh]. fold shards. rewrite (In_is_L_gen shards n i Hlen), filter_In, negb_true_iff, (memb_false N.eqb N.eqb_eq).
+      unfold L. rewrite (In_is_L st i Hl). split.
+      + intros [sh' [Hv' Hi]]. split.
+        * rewrite (Hget sh' Hv') in Hi. destruct (Nat.eqb sh' sh) eqn:Es; [|eauto].
+          apply Nat.eqb_eq in Es. subst. apply Hs1 in Hi. exists sh. split; [exact Hv|tauto].
+        * intros Hin. apply (Hdead_fst i Hin sh' Hv'). exact Hi.
+      + intros [[sh' [Hv' Hi]] Hnd']. destruct (Nat.eqb sh' sh) eqn:Es.
+        * apply Nat.eqb_eq in Es. subst sh'. fold shd in Hi.
+          destruct (in_dec N.eq_dec i (map fst ids)) as [Hii|Hii].
+          -- apply in_map_iff in Hii. destruct Hii as [[i' k] [E Hii]]. cbn in E. subst i'.
+             destruct (existsb (fun s0 => memb N.eqb i (sh_sids s0)) shards) eqn:Ex.
+             ++ apply existsb_exists in Ex. destruct Ex as [s0 [Hs0 Hm]]. apply (memb_In N.eqb N.eqb_eq) in Hm.
+                apply (In_ish shards n _ Hlen) in Hs0. destruct Hs0 as [sh'' [Hv'' ->]]. eauto.
+             ++ exfalso. apply Hnd'. apply in_map_iff. exists (i, k). split; [reflexivity|]. unfold dead. rewrite Hdd. apply filter_In.
+                split; [exact Hii|]. cbn [fst]. rewrite Ex. reflexivity.
+          -- exists sh. split; [exact Hv|]. rewrite (Hget sh Hv), Nat.eqb_refl. apply Hs1. auto.
+        * exists sh'. split; [exact Hv'|]. rewrite (Hget sh' Hv'), Es. exact Hi.
   Qed.
 
   (* Store.DeleteSeries on one shard over a list of measurement names (Rebuild after each) *)
@@ -370,7 +420,7 @@ Section Steps.
     - exists A. split; [exact OK|]. intros p. cbn. tauto.
     - set (keys := series_keys rx (ix_prims (is_ix st)) (is_sf st) m c).
       assert (Hkeys : forall k, In k keys <-> In k (db_set A) /\ fst k = m /\ eval_opt rx c k = true).
-      { intros k. unfold keys. rewrite (series_keys_ok rx _ _ _ _ (is_refines A st OK)).
+      { intros k. unfold keys. rewrite (series_keys_ok' rx _ _ _ _ (is_refines A st OK)).
         unfold series_of. rewrite filter_In, andb_true_iff, str_eqb_eq. tauto. }
       pose proof (is_delete_keys_ok A st sh keys OK Hv (fun k Hk => proj1 (proj1 (Hkeys k) Hk))) as OK1. cbv zeta in OK1.
       destruct (IH _ _ OK1 Hv) as [A' [OK' HA']]. exists A'. split; [exact OK'|].
@@ -449,10 +499,11 @@ Section Steps.
       assert (Hwf : Forall (fun s => wf_series s = true) keys).
       { apply Forall_forall. intros x Hx. apply Hkin in Hx. apply (ik_A _ _ _ OK sh x Hx). }
       assert (O0 : ids_ok sf [] (sh_sids ish_empty)) by (constructor; cbn; try (intros; tauto); constructor).
-      pose proof (is_create_list_ok keys sf L ix [] ish_empty I X Xd O0 (fun i (H : In i []) => match H with end) Hwf) as H1.
+      pose proof (is_create_list_ok keys sf L ix [] ish_empty I X O0 (fun i (H : In i []) => match H with end) Hwf) as H1.
       unfold is_create_list.
       destruct (fold_left (fun a s => ix_create (fst (fst a)) (snd (fst a)) (snd a) s) keys (sf, ix, ish_empty)) as [[sf1 ix1] shd].
-      destruct H1 as [L1 [S1 [I1 [E1 [Hold1 [Hnew1 [X1 [Xd1 [O1 [HS1 [HL1 _]]]]]]]]]]].
+      destruct H1 as [L1 [S1 [I1 [E1 [Hold1 [Hnew1 [X1 [[Xd1' _] [O1 [HS1 [HL1 _]]]]]]]]]]].
+      assert (Xd1 : ix_dirty ix1 = []) by congruence.
       assert (Hb0 : (sf_next (is_sf st) <= sf_next sf)%N) by apply (se_next _ _ E).
       assert (Hold' : forall j, (j < sf_next (is_sf st))%N -> sf_key sf1 j = sf_key (is_sf st) j /\ sf_deleted sf1 j = sf_deleted (is_sf st) j).
       { intros j Hj. assert (j < sf_next sf)%N by lia. destruct (Hold1 j H) as [H2 H3], (Hold j Hj) as [H4 H5]. split; congruence. }
@@ -506,12 +557,87 @@ Section Steps.
     - apply (ix_ok_L sf' L'); [|exact X']. intros i. unfold is_L. cbn [is_sh]. rewrite (In_is_L_gen acc' n i Hlen), HL'. split.
       + intros [sh [Hv Hi]]. apply valid_shard_iff in Hv. exists (sh - 1). split; [lia|exact Hi].
       + intros [x [Hx Hi]]. exists (Datatypes.S x). split; [apply valid_shard_iff; lia|]. cbn. rewrite Nat.sub_0_r. exact Hi.
+    - apply tv_weak_of_clean; [|exact Xd']. apply (ix_ok_L sf' L'); [|exact X']. intros i. unfold is_L. cbn [is_sh]. rewrite (In_is_L_gen acc' n i Hlen), HL'. split.
+      + intros [sh [Hv Hi]]. apply valid_shard_iff in Hv. exists (sh - 1). split; [lia|exact Hi].
+      + intros [x [Hx Hi]]. exists (Datatypes.S x). split; [apply valid_shard_iff; lia|]. cbn. rewrite Nat.sub_0_r. exact Hi.
+  Qed.
+
+  (* Store.DeleteShard with the in-memory index (no Rebuild), then the shard is created again *)
+  Lemma is_drop_shard_ok A st sh :
+    is_ok n A st -> is_ok n (apply_op rx n A (ODropShard sh)) (is_drop_shard n st sh).
+  Proof.
+    intros OK. pose proof OK as [Isf Hl Hd HA Hsh Hsfl Hix Htv]. unfold is_drop_shard. cbn [apply_op].
+    set (A' := filter (fun p => negb (Nat.eqb (fst p) sh)) A).
+    assert (HA' : forall sh' s, In (sh', s) A' <-> In (sh', s) A /\ sh' <> sh).
+    { intros sh' s. unfold A'. rewrite filter_In. cbn [fst]. rewrite negb_true_iff, Nat.eqb_neq. tauto. }
+    destruct (valid_shard n sh) eqn:Hv.
+    2: { apply (is_ok_ext A); [|exact OK]. intros [sh' s]. rewrite HA'. split; [tauto|]. intros H. split; [exact H|].
+         intros ->. destruct (HA sh s H) as [Hv' _]. congruence. }
+    set (sf := is_sf st) in *. set (L := is_L st) in *. set (shd := is_get st sh).
+    set (shards := upd_nth (sh - 1) ish_empty (is_sh st)).
+    assert (Hlen : length shards = n) by (unfold shards; rewrite upd_nth_length; exact Hl).
+    assert (Hget : forall sh', valid_shard n sh' = true -> nth (sh' - 1) shards ish_empty = if Nat.eqb sh' sh then ish_empty else is_get st sh')
+      by (intros sh' Hv'; apply is_get_upd; assumption).
+    set (deadi := filter (fun i => negb (existsb (fun s0 => memb N.eqb i (sh_sids s0)) shards)) (sh_sids shd)).
+    assert (Hdead : forall i sh', In i deadi -> valid_shard n sh' = true -> ~ In i (sh_sids (nth (sh' - 1) shards ish_empty))).
+    { intros i sh' Hi Hv' Hin. unfold deadi in Hi. apply filter_In in Hi. destruct Hi as [_ Hi]. apply negb_true_iff in Hi.
+      rewrite existsb_false in Hi. specialize (Hi (nth (sh' - 1) shards ish_empty)).
+      rewrite (proj2 (memb_In N.eqb N.eqb_eq _ _) Hin) in Hi. discriminate Hi.
+      apply nth_In. rewrite Hlen. apply valid_shard_iff in Hv'. lia. }
+    (* an id of the shard that is not dead is held by another shard *)
+    assert (Hheld : forall i, In i (sh_sids shd) -> ~ In i deadi -> exists sh', valid_shard n sh' = true /\ In i (sh_sids (nth (sh' - 1) shards ish_empty))).
+    { intros i Hi Hnd. destruct (existsb (fun s0 => memb N.eqb i (sh_sids s0)) shards) eqn:Ex.
+      - apply existsb_exists in Ex. destruct Ex as [s0 [Hs0 Hm]]. apply (memb_In N.eqb N.eqb_eq) in Hm.
+        apply (In_ish shards n _ Hlen) in Hs0. destruct Hs0 as [sh' [Hv' ->]]. eauto.
+      - exfalso. apply Hnd. unfold deadi. apply filter_In. split; [exact Hi|rewrite Ex; reflexivity]. }
+    assert (Hsub : forall i, In i deadi -> In i (sh_sids shd)) by (intros i Hi; unfold deadi in Hi; apply filter_In in Hi; tauto).
+    destruct (dead_pairs sf deadi) as [dead [Hmap Hdk]].
+    { intros i Hi. destruct (io_live _ _ _ (Hsh sh Hv) i (Hsub i Hi)) as [k [Hk _]]. eauto. }
+    assert (Hnd_dead : NoDup (map fst dead)).
+    { rewrite Hmap. unfold deadi. apply (NoDup_filter _ _ (io_nodup _ _ _ (Hsh sh Hv))). }
+    pose proof (dead_fold dead sf L (is_ix st) Isf Hix Hnd_dead) as Hfold.
+    rewrite two_pass_eq, Hmap in Hfold. cbv beta iota in Hfold.
+    destruct Hfold as [I2 [Hn2 [Hk2 [Ho2 [Hd2 [X2 W2]]]]]].
+    { intros i k Hin. destruct (Hdk i k Hin) as [Hi Hk]. split; [|exact Hk]. apply (In_is_L st i Hl). exists sh. split; [exact Hv|apply Hsub; exact Hi]. }
+    set (sf2 := fold_left sf_delete deadi sf) in *.
+    set (ix2 := fold_left (fun ix i => match sf_key sf i with Some k => ix_drop_series_global ix k | None => ix end) deadi (is_ix st)) in *.
+    (* the ids some shard still holds *)
+    assert (HL2 : forall i, In i (iunions (map sh_sids shards)) <-> In i (filter (fun j => negb (memb N.eqb j deadi)) L)).
+    { intros i. rewrite (In_is_L_gen shards n i Hlen), filter_In, negb_true_iff, (memb_false N.eqb N.eqb_eq).
+      unfold L. rewrite (In_is_L st i Hl). split.
+      - intros [sh' [Hv' Hi]]. split; [|intros Hin; apply (Hdead i sh' Hin Hv'); exact Hi].
+        rewrite (Hget sh' Hv') in Hi. destruct (Nat.eqb sh' sh); [destruct Hi|eauto].
+      - intros [[sh' [Hv' Hi]] Hnd']. destruct (Nat.eqb sh' sh) eqn:Es.
+        + apply Nat.eqb_eq in Es. subst sh'. apply Hheld; assumption.
+        + exists sh'. split; [exact Hv'|]. rewrite (Hget sh' Hv'), Es. exact Hi. }
+    constructor; cbn [is_sf is_data is_ix is_sh].
+    - exact I2.
+    - exact Hlen.
+    - intros [sh' s]. rewrite filter_In, Hd, HA'. cbn [fst]. rewrite negb_true_iff, Nat.eqb_neq. tauto.
+    - intros sh' s Hin. apply HA' in Hin. apply HA. tauto.
+    - intros sh' Hv'. unfold is_get. cbn [is_sh]. fold shards. rewrite (Hget sh' Hv'). destruct (Nat.eqb sh' sh) eqn:Es.
+      + apply Nat.eqb_eq in Es. subst sh'. constructor; cbn [sh_sids ish_empty]; [constructor|intros i []| |].
+        * intros s Hs. apply In_shard_set, HA' in Hs. tauto.
+        * intros s Hs. apply In_shard_set, HA' in Hs. tauto.
+      + apply Nat.eqb_neq in Es.
+        apply (ids_ok_ext sf2 (shard_set A sh') _ (sh_sids (is_get st sh')) (sh_sids (is_get st sh'))); [|tauto|apply (io_nodup _ _ _ (Hsh sh' Hv'))|].
+        * intros x. rewrite !In_shard_set, HA'. tauto.
+        * apply (ids_ok_sf sf); [|apply Hsh; exact Hv']. intros i Hi. split; [apply Hk2|]. apply Ho2. intros Hin.
+          apply (Hdead i sh' Hin Hv'). rewrite (Hget sh' Hv'). apply Nat.eqb_neq in Es. rewrite Es. exact Hi.
+    - intros i s Hk Hdel. fold shards. rewrite Hk2 in Hk.
+      assert (Hndd : ~ In i deadi) by (intros Hin; rewrite (Hd2 i Hin) in Hdel; discriminate).
+      rewrite (Ho2 i Hndd) in Hdel. destruct (Hsfl i s Hk Hdel) as [sh' [Hv' Hin]].
+      destruct (Nat.eqb sh' sh) eqn:Es.
+      + apply Nat.eqb_eq in Es. subst sh'. destruct (Hheld i Hin Hndd) as [sh'' [Hv'' Hi'']]. exists sh''. split; [exact Hv''|exact Hi''].
+      + exists sh'. split; [exact Hv'|]. unfold is_get. cbn [is_sh]. fold shards. rewrite (Hget sh' Hv'), Es. exact Hin.
+    - apply (ix_ok_L sf2 (filter (fun j => negb (memb N.eqb j deadi)) L)); [|exact X2]. intros i. unfold is_L. cbn [is_sh]. fold shards. apply HL2.
+    - apply (tv_weak_L sf2 (filter (fun j => negb (memb N.eqb j deadi)) L)); [|apply W2; exact Htv]. intros i. unfold is_L. cbn [is_sh]. fold shards. apply HL2.
   Qed.
 
   Theorem is_step_ok A st o :
     wf_op o = true -> is_ok n A st -> is_ok n (apply_op rx n A o) (is_step rx n st o).
   Proof.
-    intros Hwf OK. destruct o as [sh ss|shs from c|m|sh|sh lvl| |sh| ]; cbn [is_step apply_op]; try exact OK.
+    intros Hwf OK. destruct o as [sh ss|shs from c|m|sh|sh|sh lvl| |sh| | ]; cbn [is_step apply_op]; try exact OK.
     - apply is_write_ok; assumption.
     - destruct (is_delete_shards_ok from c (filter (fun sh => memb Nat.eqb sh shs) (seq 1 n)) A st OK) as [A' [OK' HA']].
       { intros sh Hin. apply filter_In in Hin. apply In_seq_valid. tauto. }
@@ -531,6 +657,8 @@ Section Steps.
       + intros [Hin Hb]. split; [exact Hin|]. intros [_ [Hf _]]. congruence.
       + intros [Hin Hn]. split; [exact Hin|]. destruct (str_eqb (fst s) m) eqn:E; [|reflexivity]. exfalso. apply Hn.
         ssplit; auto. apply (ik_A _ _ _ OK sh s Hin).
+    - (* shard deletion *)
+      apply is_drop_shard_ok. exact OK.
     - (* series-file compaction *)
       destruct OK as [Isf Hl Hd HA Hsh Hsfl Hix Hcl].
       destruct (sf_compact_spec (is_sf st) Isf) as [I' [Hn [Hdel Hkey]]]. cbv zeta in *.
@@ -541,6 +669,17 @@ Section Steps.
       + intros i s Hk Hdl. rewrite Hdel in Hdl. rewrite Hkey, Hdl in Hk. apply (Hsfl i s Hk Hdl).
       + apply (ix_ok_sf (is_sf st)); [exact Hsame| |exact Hix]. intros i Hi. destruct (xo_del _ _ _ Hix i Hi) as [H1 H2].
         rewrite Hdel, Hn. auto.
+      + apply (tv_weak_sf (is_sf st)); [intros i Hi; apply Hsame; exact Hi| |exact Hcl].
+        intros i H1 H2. rewrite Hdel, Hn. auto.
+    - (* a new series-file segment *)
+      destruct OK as [Isf Hl Hd HA Hsh Hsfl Hix Hcl].
+      destruct (sf_roll_spec (is_sf st) Isf) as [I' [Hn [Hkey [Hdel _]]]].
+      constructor; cbn [is_sf is_data is_ix is_sh]; auto.
+      + intros sh Hv. apply (ids_ok_sf (is_sf st)); [|apply Hsh; exact Hv]. intros i Hi. split; [apply Hkey|apply Hdel].
+      + apply (ix_ok_sf (is_sf st)); [intros i Hi; split; [apply Hkey|apply Hdel]| |exact Hix].
+        intros i Hi. destruct (xo_del _ _ _ Hix i Hi) as [H1 H2]. rewrite Hdel, Hn. auto.
+      + apply (tv_weak_sf (is_sf st)); [intros i Hi; apply Hkey| |exact Hcl].
+        intros i H1 H2. rewrite Hdel, Hn. auto.
     - apply is_reopen_ok. exact OK.
   Qed.
 
